@@ -39,7 +39,8 @@ fn logical(dt: &DataType) -> String {
 enum Route<'a> {
     Sql(&'a str),
     PrepareExecute(&'a str, &'a str),
-    WithParams(&'a str, Vec<ScalarValue>),
+    /// text, values, indices of the LIMIT/OFFSET placeholders (Int64 by definition, no inference)
+    WithParams(&'a str, Vec<ScalarValue>, Vec<usize>),
 }
 
 fn run_route(rt: &tokio::runtime::Runtime, ctx: &SessionContext, route: Route) -> Out {
@@ -54,7 +55,7 @@ fn run_route(rt: &tokio::runtime::Runtime, ctx: &SessionContext, route: Route) -
                         let r = ctx.sql(e).await.map_err(|e| e.to_string());
                         r?
                     }
-                    Route::WithParams(s, vals) => {
+                    Route::WithParams(s, vals, lim_idx) => {
                         // a placeholder whose type the planner cannot infer is not in the property's
                         // quantifier ("parameter values of the inferred types")
                         let tag = |e: datafusion_common::DataFusionError| {
@@ -64,6 +65,21 @@ fn run_route(rt: &tokio::runtime::Runtime, ctx: &SessionContext, route: Route) -
                         // planning the text with UNTYPED placeholders: a failure here means the
                         // planner could not infer the placeholder types (it treats them as Null)
                         let df = ctx.sql(s).await.map_err(|e| format!("UNINFERABLE?: {e}"))?;
+                        // "parameter values of the inferred types": the value given for `$n` must have
+                        // the type the planner inferred for `$n`.  Where nothing is inferred (`$6 + $7`,
+                        // `NULLIF($2, $3)`, `SELECT $1`) the planner falls back to Null / Int64 and a
+                        // value of another type is outside the property's quantifier.
+                        let types = df.logical_plan().get_parameter_types().map_err(tag)?;
+                        for (i, v) in vals.iter().enumerate() {
+                            if lim_idx.contains(&i) {
+                                continue;
+                            }
+                            match types.get(&format!("${}", i + 1)) {
+                                Some(Some(dt)) if logical(dt) == logical(&v.data_type()) => {}
+                                Some(Some(dt)) => return Err(format!("UNINFERABLE?: DIFFERS inferred type {dt:?} for ${} differs from the value's type {:?}", i + 1, v.data_type())),
+                                _ => return Err(format!("UNINFERABLE?: NONE no type inferred for ${}", i + 1)),
+                            }
+                        }
                         df.with_param_values(vals).map_err(tag)?
                     }
                 };
@@ -251,6 +267,9 @@ pub fn run(run: &mut Run, args: &Args) {
         let mut lim_sql_p = String::new();
         let mut lim_sql_l = String::new();
         let mut lim_kind = "none";
+        let mut lim_idx: Vec<usize> = vec![];
+        let mut fetch_ph: Option<usize> = None;
+        let mut skip_ph: Option<usize> = None;
         if let Some((skip, fetch)) = q.limit {
             if rng.chance(1, 2) {
                 // take the clause out of the AST and write it ourselves
@@ -261,6 +280,8 @@ pub fn run(run: &mut Run, args: &Args) {
                     let v = if weird { Val::Null } else { Val::Int(64, f as i64) };
                     params.push((v.clone(), Ty::Int(64)));
                     fetch_arg = format!("(ph {})", params.len() - 1);
+                    lim_idx.push(params.len() - 1);
+                    fetch_ph = Some(params.len() - 1);
                     lim_sql_p.push_str(&format!(" LIMIT ${}", params.len()));
                     lim_sql_l.push_str(&format!(" LIMIT {}", v.sql(Ty::Int(64), false)));
                     if weird {
@@ -270,6 +291,8 @@ pub fn run(run: &mut Run, args: &Args) {
                 if skip > 0 || fetch.is_none() {
                     params.push((Val::Int(64, skip as i64), Ty::Int(64)));
                     skip_arg = format!("(ph {})", params.len() - 1);
+                    lim_idx.push(params.len() - 1);
+                    skip_ph = Some(params.len() - 1);
                     lim_sql_p.push_str(&format!(" OFFSET ${}", params.len()));
                     lim_sql_l.push_str(&format!(" OFFSET {skip}"));
                 }
@@ -322,16 +345,75 @@ pub fn run(run: &mut Run, args: &Args) {
         let dbs = db_sexp(&db);
         let out_l = run_route(&rt, &ctx, Route::Sql(&sql_l));
         let out_e = run_route(&rt, &ctx, Route::PrepareExecute(&prep, &exec));
-        let out_w = run_route(&rt, &ctx, Route::WithParams(&sql_p, vals));
+        // ---- the statement for the with_param_values route: the property quantifies over "parameter
+        //      values of the inferred types", so only the placeholders for which the planner infers
+        //      exactly the value's type stay placeholders; the others (`$6 + $7`, `NULLIF($2, $3)`,
+        //      `SELECT $1 …`: nothing to infer from, the planner falls back to Null / Int64) are written
+        //      back as literals.  LIMIT / OFFSET placeholders are Int64 by definition.
+        let inferred = rt.block_on(async {
+            match ctx.sql(&sql_p).await {
+                Ok(df) => df.logical_plan().get_parameter_types().ok(),
+                Err(_) => None,
+            }
+        });
+        let keep: Vec<bool> = (0..params.len())
+            .map(|i| {
+                lim_idx.contains(&i)
+                    || matches!(inferred.as_ref().and_then(|m| m.get(&format!("${}", i + 1))), Some(Some(dt)) if logical(dt) == logical(&vals[i].data_type()))
+            })
+            .collect();
+        run.add("W:placeholders-kept", keep.iter().filter(|k| **k).count() as u64);
+        run.add("W:placeholders-written-back-as-literals", keep.iter().filter(|k| !**k).count() as u64);
+        let mut newidx: Vec<Option<usize>> = vec![None; params.len()];
+        let mut params_w: Vec<(Val, Ty)> = vec![];
+        for (i, k) in keep.iter().enumerate() {
+            if *k {
+                newidx[i] = Some(params_w.len());
+                params_w.push(params[i].clone());
+            }
+        }
+        let qw = q.map_exprs(&mut |e| match e {
+            Expr::Ph(i, ty) => match newidx[i] {
+                Some(n) => Expr::Ph(n, ty),
+                None => Expr::Lit(params[i].0.clone(), ty, false),
+            },
+            e => e,
+        });
+        let mut lim_sql_w = String::new();
+        let mut fetch_arg_w = String::from("()");
+        let mut skip_arg_w = String::from("()");
+        let mut lim_idx_w = vec![];
+        if let Some(n) = fetch_ph.and_then(|i| newidx[i]) {
+            lim_sql_w.push_str(&format!(" LIMIT ${}", n + 1));
+            fetch_arg_w = format!("(ph {n})");
+            lim_idx_w.push(n);
+        }
+        if let Some(n) = skip_ph.and_then(|i| newidx[i]) {
+            lim_sql_w.push_str(&format!(" OFFSET ${}", n + 1));
+            skip_arg_w = format!("(ph {n})");
+            lim_idx_w.push(n);
+        }
+        let sql_w = format!("{}{}", qw.sql(), lim_sql_w);
+        let plan_w = qw.plan();
+        let vals_w: Vec<ScalarValue> = params_w.iter().map(|(v, t)| scalar(v, *t)).collect();
+        let out_w = if params_w.is_empty() {
+            run.count("W:no-inferable-placeholder");
+            Err("UNINFERABLE?: NONE no placeholder with an inferred type".to_string())
+        } else {
+            run_route(&rt, &ctx, Route::WithParams(&sql_w, vals_w, lim_idx_w))
+        };
         let _ = rt.block_on(async { ctx.sql("DEALLOCATE st").await });
         let replay = format!("literal: `{sql_l}` ;; `{prep}` ;; `{exec}` ;; db={dbs}");
         for (name, o) in [("L", &out_l), ("E", &out_e), ("W", &out_w)] {
             match o {
                 Ok((r, _)) => run.count(&format!("{name}:ok{}", if r.is_empty() { "-empty" } else { "" })),
-                Err(m) if m.starts_with("HANG") || m.starts_with("PANIC") => {
+                // (a panic of the PREPARE/EXECUTE route goes through the classification below)
+                Err(m) if m.starts_with("HANG") || (m.starts_with("PANIC") && name != "E") => {
                     run.oracle(false, &format!("C41 engine {} route {name} :: {sql_p}", &m[..4]), &format!("{m}; {replay}"));
                 }
+                Err(m) if m.starts_with("UNINFERABLE?: DIFFERS") => run.count(&format!("{name}:inferred-type-differs-from-value")),
                 Err(m) if m.starts_with("UNINFERABLE?") => run.count(&format!("{name}:uninferable")),
+                Err(m) if m.starts_with("PANIC") => run.count(&format!("{name}:panic")),
                 Err(m) => run.count(&format!("{name}:err-{}", err_class(m))),
             }
         }
@@ -389,7 +471,7 @@ pub fn run(run: &mut Run, args: &Args) {
         let w_judged = !w_rejected && !matches!(&out_w, Err(m) if m.starts_with("UNINFERABLE?"));
         if w_judged {
             let r = same_result(&q, seq, &out_w, &out_l);
-            run.oracle(r.is_ok(), &format!("C41 with_param_values-vs-literal :: {sql_p} :: {exec}"), &format!("{}; {replay}", r.err().unwrap_or_default()));
+            run.oracle(r.is_ok(), &format!("C41 with_param_values-vs-literal :: {sql_w} :: ({})", params_w.iter().map(|(v, t)| v.sql(*t, false)).collect::<Vec<_>>().join(", ")), &format!("{}; {replay}", r.err().unwrap_or_default()));
         }
         // ---- correspondence with the Lean reference (both routes and the literal text)
         let ps = format!("({})", params.iter().map(|(v, _)| v.sexp()).collect::<Vec<_>>().join(" "));
@@ -399,7 +481,8 @@ pub fn run(run: &mut Run, args: &Args) {
         let e_for_model = if e_known { &out_l } else { &out_e };
         run.case("query", &format!("({mode} {plan} {skip_arg} {fetch_arg} {dbs} {ps} {} {})", impl_sexp(e_for_model), impl_sexp(&out_l)), "ok", nontrivial);
         if w_judged {
-            run.case("query", &format!("({mode} {plan} {skip_arg} {fetch_arg} {dbs} {ps} {} {})", impl_sexp(&out_w), impl_sexp(&out_l)), "ok", false);
+            let ps_w = format!("({})", params_w.iter().map(|(v, _)| v.sexp()).collect::<Vec<_>>().join(" "));
+            run.case("query", &format!("({mode} {plan_w} {skip_arg_w} {fetch_arg_w} {dbs} {ps_w} {} {})", impl_sexp(&out_w), impl_sexp(&out_l)), "ok", false);
         }
         if qi <= 3 {
             run.note(&format!("sample: {prep} ;; {exec}"));
